@@ -82,6 +82,29 @@ const TIMES_NS: [i64; 7] = [
 ];
 const INSTANT_ADVANCES_S: [u64; 2] = [0, 2];
 
+thread_local! {
+    static RT: tokio::runtime::Runtime = tokio::runtime::Builder::new_current_thread().build().expect("runtime");
+}
+/// Installs `ts` as the runtime-wide time source of this thread's runtime and enters the runtime;
+/// with `rejected_second` a second install (another clock) is attempted and must panic without
+/// replacing the first.
+fn runtime_route(ts: TimeSource, rejected_second: bool) -> (tokio::runtime::EnterGuard<'static>, metrique_timesource::tokio::RuntimeTimeSourceGuard) {
+    RT.with(|rt| {
+        // the runtime lives as long as the thread: extend the borrow for the guards
+        let rt: &'static tokio::runtime::Runtime = unsafe { &*(rt as *const tokio::runtime::Runtime) };
+        let enter = rt.enter();
+        let g = metrique_timesource::tokio::set_time_source_for_runtime(rt.handle(), ts);
+        if rejected_second {
+            let decoy = ManuallyAdvancedTimeSource::at_time(UNIX_EPOCH + Duration::from_secs(77_000_000));
+            let r = std::panic::catch_unwind(std::panic::AssertUnwindSafe(|| {
+                metrique_timesource::tokio::set_time_source_for_runtime(rt.handle(), TimeSource::custom(decoy))
+            }));
+            assert!(r.is_err(), "a second runtime time source must be refused");
+        }
+        (enter, g)
+    })
+}
+
 #[derive(Clone, Copy, PartialEq, Eq, Debug)]
 enum Route {
     /// `Timestamp::new_from_time_source(ts)`; TimestampOnClose has only `default()`, built under a
@@ -94,8 +117,12 @@ enum Route {
     /// like ThreadLocalHeld, but an inner override with another clock begins and ends before
     /// anything is created (the outer one must be in force again)
     ThreadLocalNested,
+    /// runtime-wide time source of the entered tokio runtime (no thread-local override)
+    RuntimeHeld,
+    /// the same after a second install on that runtime was refused (it panics)
+    RuntimeAfterRejectedInstall,
 }
-const ROUTES: [Route; 4] = [Route::Explicit, Route::ThreadLocalHeld, Route::ThreadLocalDropped, Route::ThreadLocalNested];
+const ROUTES: [Route; 6] = [Route::Explicit, Route::ThreadLocalHeld, Route::ThreadLocalDropped, Route::ThreadLocalNested, Route::RuntimeHeld, Route::RuntimeAfterRejectedInstall];
 impl Route {
     fn name(self) -> &'static str {
         match self {
@@ -103,6 +130,8 @@ impl Route {
             Route::ThreadLocalHeld => "thread-local-held:now",
             Route::ThreadLocalDropped => "thread-local-dropped:default",
             Route::ThreadLocalNested => "thread-local-outer-after-inner-override-ended:now",
+            Route::RuntimeHeld => "tokio-runtime-wide:now",
+            Route::RuntimeAfterRejectedInstall => "tokio-runtime-wide-after-refused-second-install:now",
         }
     }
 }
@@ -146,7 +175,9 @@ fn scenario(t_create: i64, t_close: i64, adv_s: u64, route: Route) -> Observed {
     let clock = ManuallyAdvancedTimeSource::at_time(sys(t_create));
     let ts = TimeSource::custom(clock.clone());
     let mut calls = 0u64;
-    let mut guard = Some(set_time_source(ts.clone()));
+    let runtime = matches!(route, Route::RuntimeHeld | Route::RuntimeAfterRejectedInstall);
+    let mut guard = if runtime { None } else { Some(set_time_source(ts.clone())) };
+    let rt_guards = if runtime { Some(runtime_route(ts.clone(), route == Route::RuntimeAfterRejectedInstall)) } else { None };
     if route == Route::ThreadLocalNested {
         let decoy = ManuallyAdvancedTimeSource::at_time(sys(77_000_000_000_000_000));
         let inner = set_time_source(TimeSource::custom(decoy));
@@ -156,7 +187,7 @@ fn scenario(t_create: i64, t_close: i64, adv_s: u64, route: Route) -> Observed {
         calls += 1;
         match route {
             Route::Explicit => Timestamp::new_from_time_source(ts.clone()),
-            Route::ThreadLocalHeld | Route::ThreadLocalNested => Timestamp::now(),
+            Route::ThreadLocalHeld | Route::ThreadLocalNested | Route::RuntimeHeld | Route::RuntimeAfterRejectedInstall => Timestamp::now(),
             Route::ThreadLocalDropped => Timestamp::default(),
         }
     };
@@ -188,6 +219,7 @@ fn scenario(t_create: i64, t_close: i64, adv_s: u64, route: Route) -> Observed {
     let e = test_metric(entry);
     calls += 4 + 9;
     drop(guard);
+    drop(rt_guards);
     Observed {
         entry_timestamp: e.timestamp,
         values: FIELDS.iter().enumerate().map(|(i, (name, ..))| (i, e.values.get(*name).cloned())).collect(),
